@@ -126,8 +126,8 @@ PROPS = {
     ),
     'C20': dict(
         title='support helpers', proj='proj_full', oracle='c20',
-        quick=[S_('probes', nc=1, items=('odd_defaults_c20',)), S_('bindcall'), S_('callsig'), S_('makeup'), S_('readsig')],
-        thorough=[S_('probes', nc=1, items=('odd_defaults_c20',)), S_('bindcall'), S_('callsig'), S_('makeup'), S_('readsig', count=60000)],
+        quick=[S_('probes', nc=1, items=('odd_defaults_c20',)), S_('bindcall'), S_('callsig'), S_('makeup'), S_('readsig'), S_('resplit')],
+        thorough=[S_('probes', nc=1, items=('odd_defaults_c20',)), S_('bindcall'), S_('callsig'), S_('makeup'), S_('readsig', count=60000), S_('resplit', count=200000)],
         runtime_part='the comma split and the regular expression of read_sig, str(Signature), CPython compiling the generated def (modelled by parseDef), exec in s/f/func_from_sig (stream readsig: read_sig and s() vs the model on every signature of the universe x 8 option combinations, the chevron spelling and random piece lists; round trips eager and postponed)',
         level_text='bind_callsig = CPython binding (outside the version-dependent case), sort_callsigs partition and make_up_callsigs completeness are theorems '
                    'about the Lean model; so is the string layer after the comma split (Model/ReadSig.lean): for every signature, s(str(sig)) reproduces it in the native spelling, and for every signature without positional-only parameters in all eight modifiers-based spellings up to the order of keyword-only parameters (theorems s_native, s_no_kwoargs, s_kwoargs, s_annotate_kwoargs, read_sig_kwoargs); the split / regular expression / exec themselves are exercised by the correspondence only (partial).',
